@@ -79,6 +79,9 @@ CONTENT_VARIANTS = {
         ('mimetype-substr', {'mimetype': 'text'}, REJECT),
         ('mimetype-empty', {'mimetype': ''}, REJECT),
         ('mimetype-html', {'mimetype': 'text/html'}, REJECT),
+        ('mimetype-legacy', {'mimetype': 'text/x-markdown'}, REJECT),
+        ('mimetype-zero', {'mimetype': 0}, REJECT),
+        ('mimetype-false', {'mimetype': False}, REJECT),
         ('mimetype-int', {'mimetype': 5}, REJECT),
         ('unencodable', {'text': 'snow ☃', 'encoding': 'ascii'}, REJECT),
         ('unencodable-latin', {'text': '日本', 'encoding': 'latin-1'},
@@ -149,6 +152,9 @@ CONTENT_VARIANTS = {
         ('type-empty', {'diff_type': ''}, REJECT),
         ('type-int', {'diff_type': 5}, REJECT),
         ('le-mac', {'line_endings': 'mac'}, REJECT),
+        ('le-empty-diff', {'line_endings': ''}, REJECT),
+        ('le-zero-diff', {'line_endings': 0}, REJECT),
+        ('le-false-diff', {'line_endings': False}, REJECT),
         ('codec-unknown', {'encoding': 'nope-8', 'line_endings': None},
          REJECT),
         ('codec-unknown-le', {'encoding': 'nope-8', 'line_endings': 'unix'},
